@@ -1047,11 +1047,18 @@ class H2Stream:
             events[0].stream_ended = es_events[0]
             events += es_events
 
-        self._initialize_content_length(headers)
-
         if isinstance(events[0], TrailersReceived):
             if not end_stream:
                 raise ProtocolError("Trailers must have END_STREAM set")
+        elif not isinstance(events[0], InformationalResponseReceived):
+            # Only the header block that starts the message describes its
+            # body: informational responses and trailers do not.
+            self._initialize_content_length(headers)
+
+        if end_stream:
+            # The message ends here, without any (further) DATA frame: the
+            # amount of body data received so far is final.
+            self._track_content_length(0, end_stream)
 
         hdr_validation_flags = self._build_hdr_validation_flags(events)
         events[0].headers = self._process_received_headers(
@@ -1308,6 +1315,13 @@ class H2Stream:
         if self.request_method == b'HEAD':
             self._expected_content_length = 0
             return
+
+        # 204 and 304 responses never have a body, whatever their
+        # content-length header field says (RFC 7230 Section 3.3.2).
+        for n, v in headers:
+            if n == b':status' and v in (b'204', b'304'):
+                self._expected_content_length = 0
+                return
 
         for n, v in headers:
             if n == b'content-length':
